@@ -258,51 +258,58 @@ def result_of(arn=None):
 
 def run_scenario(asl, data, picks, workers, which, sm_type="STANDARD", expect=None, max_steps=80, children=(),
                  timer_horizon=None, eager_timer=None, ttl=500, n_exec=1, pre_run=None, canonical=True,
-                 extra_check=None, start_ctx=None, expect_each=None):
+                 extra_check=None, start_ctx=None, expect_each=None, fast=False):
     """Run one execution of `asl` to quiescence under the schedule `picks`.
-    Returns "" or the first monitor/oracle violation."""
-    sim.reset()
-    dur = sim.Durable()
-    arn = dur.add_machine(asl, sm_type)
-    types = {arn: sm_type}
-    for name, casl, ctype in children:
-        types[dur.add_machine(casl, ctype, name)] = ctype
-    inst = sim.Instance(dur, ttl=ttl)
-    inst.alive = True
-    mon = Monitors(inst, which, types)
-    run = sim.Run(picks, workers, max_steps=max_steps, eager_timer=eager_timer,
-                  on_step=lambda r: mon.after_step(r))
-    run.instances = [inst]
-    for i in range(n_exec):
-        ev = sim.start_event(copy.deepcopy(data), arn)
-        if start_ctx is not None:
-            ev["context"].update(copy.deepcopy(start_ctx(i)))
-        inst.ed.publish(ev, use_shared_queue=True)
-    if pre_run:
-        pre_run(run, inst)
-    run.run(timer_horizon)
-    if canonical:
-        run.unused_must_be_zero()
-    mon.after_step(run)
-    mon.at_quiescence(expect_execs=None)
-    if mon.err:
-        return mon.err
-    if expect is not None:
-        got = result_of()
-        if got != expect:
-            return "outcome %r, expected %r" % (got, expect)
-    if expect_each is not None:
-        with untraced():
-            for arn_, notes in mon.per_exec().items():
-                got = result_of(arn_)
-                if got != expect_each:
-                    return "outcome %r of %s, expected %r" % (got, arn_, expect_each)
-            if len(mon.per_exec()) != n_exec:
-                return "%d executions notified, expected %d" % (len(mon.per_exec()), n_exec)
-    if extra_check is not None:
-        r = extra_check(run, inst, mon)
-        if r:
-            return r
+    Returns "" or the first monitor/oracle violation.
+    fast=True: every engine action (delivery, reply, timer) runs outside CrossHair's tracer. Only legal when no
+    symbolic datum flows into the engine (all scenario arguments except the schedule vector were made concrete
+    by explicit branching in the scenario): the solver then decides the schedule space exactly as before, the
+    tracer merely stops interpreting ~10^6 opcodes of concrete engine code per path."""
+    U = untraced if fast else _Null
+    with U():
+        sim.reset()
+        dur = sim.Durable()
+        arn = dur.add_machine(asl, sm_type)
+        types = {arn: sm_type}
+        for name, casl, ctype in children:
+            types[dur.add_machine(casl, ctype, name)] = ctype
+        inst = sim.Instance(dur, ttl=ttl)
+        inst.alive = True
+        mon = Monitors(inst, which, types)
+        run = sim.Run(picks, workers, max_steps=max_steps, eager_timer=eager_timer,
+                      on_step=lambda r: mon.after_step(r), fast=fast)
+        run.instances = [inst]
+        for i in range(n_exec):
+            ev = sim.start_event(copy.deepcopy(data), arn)
+            if start_ctx is not None:
+                ev["context"].update(copy.deepcopy(start_ctx(i)))
+            inst.ed.publish(ev, use_shared_queue=True)
+        if pre_run:
+            pre_run(run, inst)
+    run.run(timer_horizon)          # the schedule decisions (Run.choose) are always traced
+    with U():
+        if canonical:
+            run.unused_must_be_zero()
+        mon.after_step(run)
+        mon.at_quiescence(expect_execs=None)
+        if mon.err:
+            return mon.err
+        if expect is not None:
+            got = result_of()
+            if got != expect:
+                return "outcome %r, expected %r" % (got, expect)
+        if expect_each is not None:
+            with untraced():
+                for arn_, notes in mon.per_exec().items():
+                    got = result_of(arn_)
+                    if got != expect_each:
+                        return "outcome %r of %s, expected %r" % (got, arn_, expect_each)
+                if len(mon.per_exec()) != n_exec:
+                    return "%d executions notified, expected %d" % (len(mon.per_exec()), n_exec)
+        if extra_check is not None:
+            r = extra_check(run, inst, mon)
+            if r:
+                return r
     return ""
 
 
